@@ -58,8 +58,8 @@ def check(run: Run) -> None:
     cases, seen = [], set()
 
     def add(src, origin, op="total"):
-        if (src, op) in seen or "\ud800" <= max(src, default="a") <= "\udfff":
-            return
+        if (src, op) in seen or (op != "total" and any("\ud800" <= ch <= "\udfff" for ch in src)):
+            return      # a lone surrogate cannot be written to a UTF-8 file: string entry point only
         seen.add((src, op))
         cases.append({"src": src, "origin": origin, "op": op, "modes": ("exec", "eval")})
 
@@ -85,8 +85,19 @@ def check(run: Run) -> None:
         add(c["src"][1:-1] + "\n", "fstring.tla:stmt")
     for c in gens.lexgen(run, 3 if run.tier == "quick" else 4)[:: (4 if run.tier == "quick" else 1)]:
         add(c["src"], "lexgen")
+    # depth: the parser is recursive, the interpreter's stack is not unbounded
+    for n in (60, 150, 400, 1200):
+        for pre, core, post in (("(", "1", ")"), ("[", "", "]"), ("f(", "x", ")"), ("{1: ", "2", "}"), ("-", "1", ""), ("not ", "a", ""), ("lambda: ", "0", ""),
+                                ("$(echo ", "a", ")"), ("@(", "1", ")"), ("x[", "0", "]"), ("a if b else ", "c", ""), ("(yield ", "1", ")"), ("f'{", "1", "}'")):
+            add(pre * n + core + post * n + "\n", "deep")
+        add("".join("    " * i + "if a:\n" for i in range(min(n, 400))) + "    " * min(n, 400) + "pass\n", "deep")
+    for s in ("x = '\ud800'\n", "'\udfff'\n", "x = f'\ud800{y}'\n", "$(echo '\ud800')\n", "f'{x:{y=}}'\n", "f'{x:{y=!r:{z=}}}'\n", "x = " + "7" * 5000 + "\n", "x = 0x" + "f" * 5000 + "\n",
+              "x = " + "1" * 5000 + ".5\n", "x = " + "1" * 400 + "e" + "9" * 400 + "\n", "x = 1e" + "9" * 30 + "j\n"):
+        add(s, "literal-evaluation")
     for c in gens.indent(run)[:: (3 if run.tier == "quick" else 1)]:
         add(c["src"], "indent.tla")
+    for c in gens.fmode(run)[:: (4 if run.tier == "quick" else 1)]:
+        add(c["src"], "fmode.tla")
     by_op = {}
     for i, c in enumerate(cases):
         by_op.setdefault(c["op"], []).append(i)
